@@ -196,6 +196,15 @@ class Repo:
         self.consulted[rel] = hashlib.sha256(text.encode("utf8")).hexdigest()
         return text
 
+    def consult_all(self, prefix: str = "rv", exclude: Tuple[str, ...] = ("rv.tools", "rv._vendor")) -> int:
+        """Record every module under `prefix` as consulted (for rules that scan the whole package)."""
+        n = 0
+        for rel, sf in self.files.items():
+            if sf.modname.startswith(prefix) and not sf.modname.startswith(exclude):
+                self.consulted[rel] = sf.sha256
+                n += 1
+        return n
+
     def cls(self, name: str, module: Optional[str] = None) -> ClassInfo:
         """Class by (qualified) name; `module` (dotted) disambiguates."""
         cands = self.classes.get(name, [])
